@@ -37,3 +37,8 @@ claim("C20", "DESIGN.md 5 C20",
  "The finite table {UDP CON, UDP NON, DTLS CON, TCP} x No-Response value 0..255 (every value the one-byte option can carry) x response code 0..255 is ENUMERATED COMPLETELY (262144 simulated runs) through a real server-side connection whose handler calls SetResponse(code), with a network duplicate of the request on datagram transports; refusal and the messages on the wire are compared with a specification function written from RFC 7967. Exhaustive over the table; nothing beyond the table is claimed.",
  "Trusts the harness codec and the 3-line specification function; pion/dtls replaced by an ideal record layer; option values longer than one byte cannot reach a handler (the decoder drops them) and are out of scope.",
  "deterministic simulation used as an exhaustive enumerator of a finite table through a simulated connection (schedule-independent)")
+
+claim("C18", "DESIGN.md 5 C18, A.7",
+ "Seeded search over histories of {message received, pong for the current ping, late pong for a superseded ping, tick at time t} with tick spacings aimed at the period boundary (exactly the period, +-1 ns), several ticks per period, late ticks, +300 s jumps and stale 'now' values on a fake clock, for the real inactivity monitor and keep-alive wired through options.WithInactivityMonitor / WithKeepAlive on a real client connection (UDP, DTLS shim, TCP, TLS shim). After every tick the connection state and the pings on the wire are compared with a reference model (last receive time, consecutive detections). Evidence, not proof.",
+ "Trusts the 40-line reference model and the harness codec; client-side connections only in this scenario (server-side tick paths run in C10's scenarios); a late pong for a superseded ping is accepted as reset or not.",
+ "deterministic simulation: seeded history/time search with monitor reference model checked at every tick")
